@@ -152,7 +152,10 @@ def rule_exec_order(chk: Check, model, rid: str, cv: CompiledView):
             if oku:
                 cur = [x for x in neqs[0][1] if x != first][0]
                 # the compared value is this generation's own table of kinds (built from this generation only) and becomes `first` once
-                oku = any(x == el for x in T.walk(cur)) and any(x[0] == "attr" and x[2] == "kind" for x in T.walk(cur)) and l.pre.get(nm) == T.NONE \
+                # ... as a table keyed by kind (a bare multiset of counts forgets which kind each count belongs to)
+                keyed = (cur[0] == "comp" and cur[1] == "dict" and cur[2][0] == "tuple" and any(x[0] == "attr" and x[2] == "kind" for x in T.walk(cur[2][1][0]))) \
+                    or (cur[0] == "call" and T.call_name(cur).endswith("Counter"))
+                oku = keyed and any(x == el for x in T.walk(cur)) and any(x[0] == "attr" and x[2] == "kind" for x in T.walk(cur)) and l.pre.get(nm) == T.NONE \
                     and l.env_out.get(nm) == T.mk_ite(T.eq(first, T.NONE, numeric=False), cur, first)
     chk.add(rid, "uniform supergraph: every generation has the first generation's kinds and counts", bool(oku), "check_generations_uniformity must return False as soon as one generation's "
             "kind counts differ from the first generation's (equal totals per kind are not enough: stacked slots of a kind would run side by side although they depend on each other)", chk.loc(f_u))
